@@ -3,7 +3,8 @@
 property it breaks (no evidence written), undo. Prints a table and writes seeded/RESULTS.json."""
 import json, os, subprocess, sys
 V = "/verif"
-only = set(sys.argv[1:])
+ALL = "--all" in sys.argv
+only = set(a for a in sys.argv[1:] if a != "--all")
 res = {}
 assert subprocess.run("git -C /repo status --porcelain --untracked-files=no", shell=True, capture_output=True, text=True).stdout.strip() == "", "/repo not clean"
 for d in sorted(os.listdir(f"{V}/seeded")):
@@ -25,6 +26,15 @@ for d in sorted(os.listdir(f"{V}/seeded")):
             res[d] = {"status": "patch-does-not-apply", "err": a.stderr[-200:]}
             print(d, "patch-does-not-apply")
             continue
+        if ALL:
+            r = subprocess.run("./check ALL --no-evidence", shell=True, cwd=V, capture_output=True, text=True)
+            hits = [l.split(" ", 2) for l in r.stdout.splitlines() if " exit=1" in l]
+            und = [l.split(" ", 1)[0] for l in r.stdout.splitlines() if " exit=2" in l]
+            own = [h for h in hits if h[0] == pid]
+            status = "caught" if own else ("caught-by-other" if hits else ("fail-closed(exit 2)" if und else "MISSED"))
+            res[d] = {"status": status, "hits": [h[0] for h in hits], "undecided": und, "report": [(h[2] if len(h) > 2 else "")[:260] for h in (own or hits)][:3]}
+            print(d, status, "|", ",".join(h[0] for h in hits), "|", ((own or hits)[0][2][:170] if (own or hits) and len((own or hits)[0]) > 2 else ""), ("| undecided: " + ",".join(und)) if und else "")
+            continue
         r = subprocess.run(f"./check {pid} --no-evidence", shell=True, cwd=V, capture_output=True, text=True)
         lines = [l for l in r.stdout.splitlines() if l.startswith("  C") or l.startswith("ANALYSIS")]
         status = {0: "MISSED", 1: "caught", 2: "fail-closed(exit 2)"}.get(r.returncode, f"exit {r.returncode}")
@@ -33,4 +43,4 @@ for d in sorted(os.listdir(f"{V}/seeded")):
     finally:
         subprocess.run("git -C /repo reset -q --hard HEAD", shell=True)
 if not only:
-    json.dump(res, open(f"{V}/seeded/RESULTS.json", "w"), indent=1)
+    json.dump(res, open(f"{V}/seeded/RESULTS_ALL.json" if ALL else f"{V}/seeded/RESULTS.json", "w"), indent=1)
